@@ -93,6 +93,7 @@ type writerRun struct {
 	hungSink bool // the sink was never closed
 	fatal    bool
 	passed   int // records delivered by the iterator the writer returns (it passes its input through)
+	early    bool // the iterator the writer returns ended while the output was not yet closed
 }
 
 // runWriter pushes the batches in `arrival` order into the real writer.
@@ -148,6 +149,12 @@ func runWriterPatience(format string, sizes, arrival []int, workers int, snk *si
 	}()
 	if !waitTimeout(drained, patience) {
 		r.hungIter = true
+	} else {
+		select {
+		case <-snk.closedCh:
+		default:
+			r.early = true
+		}
 	}
 	if !waitTimeout(snk.closedCh, patience) {
 		r.hungSink = true
@@ -464,7 +471,20 @@ func recordC04(env *Env) {
 	parallel(len(jobs), 0, func(i int) {
 		j := &jobs[i]
 		snk := newSink()
-		r := runWriter(j.Fmt, j.Sizes, j.Push, j.Workers, snk, false)
+		wf := j.Fmt
+		if (i/4)%3 == 2 && len(j.Sizes) > 0 && (wf == "fasta" || wf == "fastq") {
+			wf = "auto-" + wf // the writer of the commands, which guesses the format from the first batch it meets
+		}
+		r := runWriter(wf, j.Sizes, j.Push, j.Workers, snk, false)
+		if strings.HasPrefix(wf, "auto-") {
+			// the format is the guess of the writer (an empty first batch makes it FASTA whatever follows): the
+			// bytes are read in the format they announce
+			if b := snk.bytes(); len(b) > 0 && b[0] == '>' {
+				j.Fmt = "fasta"
+			} else if len(b) > 0 && b[0] == '@' {
+				j.Fmt = "fastq"
+			}
+		}
 		j.Tokens = tokenize(j.Fmt, snk.bytes())
 		j.Closes = snk.closes
 		if snk.writeAfter {
@@ -472,6 +492,10 @@ func recordC04(env *Env) {
 		}
 		if r.hungIter || r.hungSink || r.fatal {
 			j.Hung = 1
+		} else if r.early && (j.Fmt == "fasta" || j.Fmt == "fastq") {
+			// the FASTA / FASTQ writers end the iterator they return only once the output is complete and closed
+			// (obiuniq reads its chunk files back at that moment); the JSON and CSV writers never promised it
+			j.Tokens = append(j.Tokens, "junk:the-iterator-returned-by-the-writer-ended-before-the-output-was-closed")
 		}
 		if msg := deepCheck(j.Fmt, snk.bytes(), j.Sizes); msg != "" && j.Hung == 0 {
 			j.Tokens = append(j.Tokens, "junk:"+msg)
